@@ -206,6 +206,46 @@ def r04_1(prog, rep):
             rep.fail(rid, key, f.loc(Q.line),
                      "the pop is guarded by %s; required: non-null and instant_to_tstamp(%s.from) < %s with a strict `<` "
                      "(`<=` drops the occurrence that is due exactly now; a missing guard consumes future occurrences)" % (sorted(fa), ev, now))
+    # (e) the occurrence that is armed is not before `now`: the unwinding is left only at the end of the stream or at an occurrence
+    #     that is not earlier — libev fires a watcher armed for a past instant at once, so a task would run at a time that is none of
+    #     its occurrences' (walk with what the last tests said about the head of the stream as ghost state)
+    from ..absw import AbsWalk
+    CODE = {"<": 1, "<=": 2, "==": 3, ">=": 4, ">": 5, "!=": 6}
+    seen_arm = []
+
+    def eff_(b, i, x, store):
+        if isinstance(x, dict) and x.get("k") == "call" and x.get("fn") in tuple(PEEKS) + tuple(POPS):
+            return {"$cmp": None, "$null": None}
+        if isinstance(x, dict) and x.get("k") == "ret" and (b, i) == (ab, ai):
+            seen_arm.append((store.get("$null"), store.get("$cmp")))
+        return None
+
+    def assume_(b, si, c, store):
+        upd = {}
+        for a in gen(c, si == 0):
+            if a[0] == "cmp":
+                upd["$cmp"] = CODE.get(a[1], 0)
+            elif a[0] == "null":
+                if store.get("$null") == 0:
+                    return "infeasible"
+                upd["$null"] = 1
+            elif a[0] == "nonnull":
+                if store.get("$null") == 1:
+                    return "infeasible"
+                upd["$null"] = 0
+        return upd
+    AbsWalk(f, set(), effect=eff_, assume=assume_, max_states=50000).run()
+    key = "%s/armed-not-before-now" % label
+    if not seen_arm:
+        raise AnalysisBroken("R04.1: the arming return of %s is not reached by the walk" % rname)
+    late = [st_ for st_ in seen_arm if st_[1] not in (CODE[">="], CODE[">"], CODE["=="])]
+    if late:
+        rep.fail(rid, key, f.loc(aline), "an occurrence is armed on a path on which the unwinding was left although its time is %s %s: "
+                 "libev fires a watcher armed for a past instant immediately, so the task is started at a time that is not one of its "
+                 "occurrences (and a task whose occurrences all lie in the past is run)" % (
+                     "still before" if late[0][1] == CODE["<"] else "not known to be at or after", now))
+    else:
+        rep.ok(rid, key, f.loc(aline), "on every path to the arming return the head of the stream was last found at or after %s" % now)
     return f, ev, rets, (ab, ai)
 
 
